@@ -3,10 +3,10 @@ package checks
 
 import (
 	"bytes"
-	"runtime/pprof"
 	"encoding/json"
 	"fmt"
 	"os"
+	"runtime/pprof"
 	"time"
 
 	"github.com/dtn7/dtn7-go/verif/ev"
